@@ -4,6 +4,8 @@ import Proofs.C17.Golomb
 import Model.C17.Bip158
 import Proofs.C17.CompactBlocks
 import Proofs.C17.Block
+import Proofs.C17.Bip158
+import Proofs.C17.PowLimit
 /-!
 # C17 — block commitments: merkle roots, proofs, filters, compact blocks and targets
 
@@ -97,6 +99,16 @@ theorem next_bits_eq_core (b l : Bytes) (ts : Int) (hb4 : b.length = 4) (hl4 : l
   obtain ⟨y0, y1, y2, y3, rfl⟩ := len4 l hl4
   exact next_bits_core4 x0 x1 x2 x3 y0 y1 y2 y3 ts hb hl
 
+/-- Core holds mainnet's `powLimit` as the uint256 `2^224 - 1`; btclib as `target_from_bits(1d00ffff)`
+    = `0xffff·2^208`.  Clamping to either gives the same compact result (everything in between encodes as
+    `1d00ffff`), so `next_bits_eq_core` with btclib's limit IS Core's mainnet/testnet retarget.
+    (Other networks' limits: regtest never retargets; not proved for arbitrary limits.) -/
+theorem next_bits_core_mainnet_limit (nBits : Nat) (ts : Int) :
+    CorePow.calculateNextWorkRequired nBits ts (2 ^ 224 - 1) =
+      CorePow.calculateNextWorkRequired nBits ts (CorePow.setCompact 0x1d00ffff).value := by
+  rw [bitsMainnetLimit_eq]
+  exact next_work_limit_same nBits ts
+
 /-- `block_work` is `2^256 // (target + 1)`; an overflowing, a zero and a negative compact form are refused. -/
 theorem block_work_formula (b : Bytes) (hb4 : b.length = 4) :
     Gen.Pow.block_work b =
@@ -173,6 +185,27 @@ theorem merkle_proves_only_its_leaf (h : α → α → α) (l : List α) (i : Na
 theorem merkle_index_fits_depth (h : α → α → α) (br : List α) (x r : α) (i : Nat)
     (hv : rootFromBranch h x br i = .ok r) : i < 2 ^ br.length :=
   rootFromBranch_index_bound h br x r i hv
+
+/-- T2 (indexes past the last leaf — the verifier's side of CVE-2012-2459): in an unmutated tree no proof of
+    the honest depth is accepted at an index `≥` the number of leaves (the phantom copies of a duplicated
+    odd last node), unless a collision of the node hash is exhibited.  With `merkle_index_fits_depth`
+    (`i < 2^depth`) and `merkle_proves_only_its_leaf` (`i < length`) every index is covered.
+    NOTE: like every soundness theorem here, the DEPTH (`br'.length`) is assumed honest; see `inner_node_check`. -/
+theorem merkle_no_leaf_past_the_end (h : α → α → α) (l : List α) (r : α) (i : Nat) (y : α) (br' : List α)
+    (hr : rootAndMutated h l = some (r, false)) (hi : l.length ≤ i)
+    (hl : br'.length = (branch h l 0).length) (hv : rootFromBranch h y br' i = .ok r) :
+    ∃ a b c d, (a, b) ≠ (c, d) ∧ h a b = h c d :=
+  out_of_range_loop h r l.length l (Nat.le_refl _) hr i y br' hi hl hv
+
+/-- the `check_inner_node` callback (`_assert_inner_node_is_not_a_tx`, CVE-2017-12842), `bad l r` = "the 64
+    bytes `l ‖ r` are a serialized transaction": the checked verifier accepts exactly when the plain one does
+    and NO pair hashed on the way up is refused by the callback — an accepted proof never passes through a
+    node that is a transaction.  This is all the check gives: the depth of the tree itself is not derived
+    (a verifier holding a branch alone cannot know it), which is why the soundness theorems assume it. -/
+theorem inner_node_check (h : α → α → α) (bad : α → α → Bool) (br : List α) (x r : α) (i : Nat) :
+    rootFromBranchChecked h bad x br i = .ok r ↔
+      rootFromBranch h x br i = .ok r ∧ ∀ p ∈ pathPairs h x br i, bad p.1 p.2 = false :=
+  checked_ok_iff h bad br x r i
 
 /-- T3: `mutated` is raised iff some level the loop visits holds an equal pair at an even position. -/
 theorem merkle_mutated_iff (h : α → α → α) (l : List α) (r : α) (m : Bool)
@@ -267,6 +300,15 @@ theorem filter_no_false_negative (p M : Nat) (hr : Bytes → Nat) (es : List Byt
   rw [hlen] at this
   exact this
 
+/-- T5 on the functions the driver runs and the streams tie to btclib (`Bip158.build`, `elements`,
+    `hashToRange`, `keyFromBlockHash`, `matchAnyElems`): the filter built for a block matches every element
+    of its own contents rule — the range hypothesis of `filter_no_false_negative` is discharged for the
+    SipHash multiply-shift map. -/
+theorem bip158_build_matches_every_element (bh : Bytes) (outs prevs : List Bytes) (e : Bytes)
+    (he : e ∈ Bip158.elements outs prevs) :
+    Bip158.matchAnyElems bh (Bip158.build bh outs prevs).1 (Bip158.build bh outs prevs).2 [e] = .ok true :=
+  Bip158.build_matches_every_element bh outs prevs e he
+
 example : encodeSet 2 [1, 6, 6, 11] = [0x32, 0x24] := by decide
 example : decodeSet 2 100 4 [0x32, 0x24] = .ok [1, 6, 6, 11] := by decide
 example : decodeSet 2 100 4 [0x32, 0x25] = .error .padding := by decide
@@ -302,6 +344,25 @@ theorem reconstruct_then_fill (sid : Nat → Nat) (blk pre pool : List Nat) (slo
     (∀ j ∈ freePos pre blk.length, ∀ b, blk[j]? = some b → b ∈ pool → slots[j]? = some (Slot.pool b)) ∧
     (∀ j ∈ freePos pre blk.length, ∀ b, blk[j]? = some b → b ∉ pool → slots[j]? = some Slot.missing) :=
   reconstruct_fill sid blk pre pool slots hcount hcoll h
+
+/-- T6 on `PartialBlock.fill` as the code has it (`fillP`: count check, then the supplied transactions taken in
+    order for the `None` entries): the partial block `reconstruct` returns for an announced block `blk`
+    (`partialView`), filled with the block's transactions at the missing positions (`missingOf`, a `blocktxn`
+    answer), is accepted and IS the block.  (`reconstruct_then_fill`'s `fill` is the proof-side shorthand.) -/
+theorem partial_block_fill_is_the_block (sid : Nat → Nat) (blk pre pool : List Nat) (slots : List Slot)
+    (hcount : (freePos pre blk.length).length + pre.length = blk.length)
+    (hcoll : ∀ w ∈ pool, ∀ j ∈ freePos pre blk.length, ∀ b, blk[j]? = some b → sid w = sid b → w = b)
+    (h : reconstruct pre ((freePos pre blk.length).map fun j => sid (blk.getD j 0))
+          (pool.map fun w => (sid w, w)) = .ok slots) :
+    fillP (partialView slots blk) (missingOf slots blk) = .ok blk :=
+  fillP_reconstruct sid blk pre pool slots hcount hcoll h
+
+-- block [10,20,30,40], position 0 prefilled, short id = wtxid % 7; the pool holds 30, 20 twice and a stranger
+example : reconstruct [0] [20 % 7, 30 % 7, 40 % 7] [(30 % 7, 30), (20 % 7, 20), (4, 99), (20 % 7, 20)] =
+    .ok [.prefilled, .pool 20, .pool 30, .missing] := by decide
+example : fillP (partialView [.prefilled, .pool 20, .pool 30, .missing] [10, 20, 30, 40])
+    (missingOf [.prefilled, .pool 20, .pool 30, .missing] [10, 20, 30, 40]) = .ok [10, 20, 30, 40] := by decide
+example : fillP [some 10, none] [] = .error .count := by decide
 
 example : reconstruct [0] [7, 9] [(9, 100), (5, 3), (7, 200), (9, 100), (7, 201)] =
     .ok [.prefilled, .missing, .pool 100] := by decide
